@@ -65,21 +65,21 @@ def first_repo_error(stderr):
     return errs[0] if errs else None
 
 
-def syntax_only(src, extra=(), compiler=CLANGXX, std=None, error_limit=0):
+def syntax_only(src, extra=(), compiler=CLANGXX, std=None, error_limit=0, defs=None):
     flags = list(BASE_FLAGS)
     if std:
         flags = [f for f in flags if not f.startswith("-std=")] + ["-std=" + std]
     lim = ["-ferror-limit=%d" % error_limit] if compiler == CLANGXX else ["-fmax-errors=%d" % error_limit]
-    cmd = [compiler, "-fsyntax-only"] + flags + BASE_DEFS + lim + list(extra) + [src]
+    cmd = [compiler, "-fsyntax-only"] + flags + (BASE_DEFS if defs is None else list(defs)) + lim + list(extra) + [src]
     rc, out, err = run(cmd)
     return rc, err, cmd
 
 
-def emit_ir(src, out_bc, extra=()):
+def emit_ir(src, out_bc, extra=(), defs=None):
     """Unoptimised IR without optnone/noinline; irdump runs the inlining pipeline itself."""
     cmd = [CLANGXX, "-O1", "-Xclang", "-disable-llvm-passes", "-ffp-contract=off", "-g",
            "-fno-exceptions" if False else "-fexceptions",
-           "-emit-llvm", "-c"] + BASE_FLAGS + BASE_DEFS + list(extra) + [src, "-o", out_bc]
+           "-emit-llvm", "-c"] + BASE_FLAGS + (BASE_DEFS if defs is None else list(defs)) + list(extra) + [src, "-o", out_bc]
     rc, out, err = run(cmd)
     if rc != 0:
         e = first_repo_error(err)
@@ -101,14 +101,17 @@ def irdump(bc, out_json, keep=(), roots=None, extra=()):
         return json.load(f)
 
 
-def astdump(src, out_json, patterns, extra=(), std=None):
+IO_DEFS = ["-DNDEBUG", "-DBOOSTORG_GIL_VERIF"]      # the I/O tests are built without BOOST_GIL_USE_CONCEPT_CHECK
+
+
+def astdump(src, out_json, patterns, extra=(), std=None, defs=None):
     flags = list(BASE_FLAGS)
     if std:
         flags = [f for f in flags if not f.startswith("-std=")] + ["-std=" + std]
     cmd = [ASTDUMP, src, "-o", out_json]
     for p in patterns:
         cmd += ["--fn", p]
-    cmd += ["--"] + flags + BASE_DEFS + list(extra) + ["-resource-dir", resource_dir()]
+    cmd += ["--"] + flags + (BASE_DEFS if defs is None else list(defs)) + list(extra) + ["-resource-dir", resource_dir()]
     rc, out, err = run(cmd)
     if rc != 0 or not os.path.exists(out_json):
         e = first_repo_error(err)
